@@ -112,3 +112,9 @@ Proof.
   destruct (H a (or_introl eq_refl)) as [b ->].
   destruct IH as [bs ->]; [intros; apply H; now right|]. eauto.
 Qed.
+
+Fixpoint mapM_res {A B} (f : A -> res B) (l : list A) : res (list B) :=
+  match l with
+  | [] => Ok []
+  | a :: r => let* b := f a in let* bs := mapM_res f r in Ok (b :: bs)
+  end.
